@@ -11,6 +11,11 @@ import (
 )
 
 func impl(in hv.Val) hv.Val {
+	if top := hv.AsList(in); len(top) == 2 {
+		if _, isList := top[0].(hv.L); !isList && hv.AsInt(top[0]) == 7 {
+			return liveRun(hv.AsList(top[1]))
+		}
+	}
 	t := bfe_http2.VerifC36New()
 	out := hv.L{}
 	for _, opv := range hv.AsList(in) {
@@ -34,6 +39,9 @@ func impl(in hv.Val) hv.Val {
 
 // The generator tracks its own shadow of the tree only to bias choices (descendants, siblings, closed ids).
 func gen(r *hv.Rng, i int, tier string) (string, hv.Val) {
+	if i%10 == 7 {
+		return genLive(r)
+	}
 	maxStreams := r.Range(2, 10)
 	initN := r.Range(2, 5)
 	nops := r.Range(3, 36)
@@ -159,5 +167,83 @@ func gen(r *hv.Rng, i int, tier string) (string, hv.Val) {
 }
 
 func main() {
-	hv.Main(&hv.Spec{Prop: "C36", Gen: gen, Impl: impl, NQuick: 5000, NThorough: 200000, Deadline: 5 * time.Second})
+	hv.Main(&hv.Spec{Prop: "C36", Gen: gen, Impl: impl, NQuick: 5000, NThorough: 200000, Deadline: 30 * time.Second})
+}
+
+// live scripts: streams are opened by HEADERS with/without priority fields (dependency on itself, on an open, a closed
+// or a never-opened stream, on 0; exclusive or not), re-prioritised by PRIORITY frames and closed by RST_STREAM
+func genLive(r *hv.Rng) (string, hv.Val) {
+	steps := hv.L{}
+	next := 1
+	var open, closed []int
+	pick := func(self int) int {
+		switch r.Intn(8) {
+		case 0:
+			return 0
+		case 1:
+			return self
+		case 2:
+			if len(closed) > 0 {
+				return closed[r.Intn(len(closed))]
+			}
+			return next + 10
+		case 3:
+			return next + 2*r.Intn(3) // not opened yet (may be opened later)
+		}
+		if len(open) > 0 {
+			return open[r.Intn(len(open))]
+		}
+		return 0
+	}
+	nSelf := 0
+	for k := r.Range(4, 24); k > 0; k-- {
+		c := r.Intn(10)
+		switch {
+		case len(open) < 2 || (c < 3 && len(open)+len(closed) < 10):
+			id := next
+			next += 2 * (1 + r.Intn(2))
+			prio := r.Chance(3, 4)
+			dep, w, ex := 0, 0, false
+			if prio {
+				dep, w, ex = pick(id), r.Intn(256), r.Chance(1, 3)
+				if dep == id {
+					nSelf++
+				}
+				if dep == 0 && w == 0 && !ex {
+					w = 16 // all-zero priority fields would not set the PRIORITY flag
+				}
+			}
+			steps = append(steps, hv.L{hv.I(1), hv.I(id), hv.Bool(prio), hv.I(dep), hv.I(w), hv.Bool(ex)})
+			open = append(open, id)
+		case c < 4 && len(open) > 1:
+			j := r.Intn(len(open))
+			steps = append(steps, hv.L{hv.I(2), hv.I(open[j])})
+			closed = append(closed, open[j])
+			open = append(open[:j:j], open[j+1:]...)
+		default:
+			var id int
+			switch r.Intn(10) {
+			case 0:
+				if len(closed) > 0 {
+					id = closed[r.Intn(len(closed))]
+				} else {
+					id = next + 4
+				}
+			case 1:
+				id = next + 2*r.Intn(2) // idle stream
+			default:
+				id = open[r.Intn(len(open))]
+			}
+			dep := pick(id)
+			if dep == id {
+				nSelf++
+			}
+			steps = append(steps, hv.L{hv.I(3), hv.I(id), hv.I(dep), hv.I(r.Intn(256)), hv.Bool(r.Chance(2, 5))})
+		}
+	}
+	class := "live"
+	if nSelf > 0 {
+		class = "live+selfdep"
+	}
+	return class, hv.L{hv.I(7), steps}
 }
